@@ -307,6 +307,9 @@ def check_runs(chk, cfgs):
             chk.fail("terminates", case, f"still running after {res['kernel_calls']['n']} iterations, beta history {betas[:5]}...",
                      {**sig, "clause": "spin", "beta0": betas[0] if betas else None})
             continue
+        if smcrun.collapsed_population(res):
+            chk.count("skipped:population_collapsed_rejected_by_library")
+            continue
         if res["status"] != "done":
             chk.fail("no valid option combination raises", case, f"sample raised {res['exc']!r}",
                      {**sig, "clause": "raise", "exc": type(res["exc"]).__name__})
